@@ -44,7 +44,7 @@ def belongs(prop, v, run):
     if prop == "C15":
         return cls.startswith("asan:") or cls in ("crash", "abort", "ubsan", "assert", "hang")
     if prop == "C18":
-        return cls in ("counter", "counter-result", "kernel-sharing")
+        return cls in ("counter", "counter-result", "kernel-sharing", "wrapper-args")
     return False
 
 FLAVOURS = {  # (quick, thorough)
@@ -394,7 +394,7 @@ def main():
     # ---- gate, minimise, write replay files ----
     os.makedirs(REPLAYS, exist_ok=True)
     violation_lines, gate_failures = [], []
-    for k, r, v, cnt in new[:6]:
+    for k, r, v, cnt in new[:8]:
         sc = r.get("scenario") or emit_scenario(r["flavour"], prop, tier, r["seed"], r["sub"])
         if sc is None:
             gate_failures.append("no scenario for " + k); continue
@@ -425,6 +425,12 @@ def main():
         e[1] += cnt; e[2].append(k)
     for key, (kf, cnt, keys) in by_finding.items():
         print("KNOWN-FINDING: property=%s %s [%s; %d runs]" % (prop, kf.get("description", key), key, cnt))
+    # a violation that does not replay is a framework error -- unless other violations of this batch did replay exactly:
+    # then the unconfirmed ones are most likely follow-up damage of the confirmed defect (undefined behaviour) and are only noted
+    if gate_failures and violation_lines:
+        for e in gate_failures[:10]:
+            print("note (not confirmed on replay, not reported): " + e)
+        gate_failures = []
     if fw_errors or gate_failures:
         for e in (fw_errors + gate_failures)[:10]:
             print("FRAMEWORK-ERROR: " + e)
